@@ -214,6 +214,12 @@ func check(st *stats, u *sergen.Universe, s *sergen.Shape, v *sergen.Val, valida
 	default:
 		out.accepted = true
 		out.bytes = b
+		if validation && sergen.HasInvalidUTF8(s, v) {
+			add("bin", "encoder-accepted-non-utf8-string-under-validation", "Encode with validation accepted a string that is not valid UTF-8 (oracle: unicode/utf8.Valid)")
+		}
+		if sergen.StringBoundsViolated(s, v, validation) {
+			add("bin", "encoder-accepted-string-outside-bounds", "Encode accepted a string / byte slice whose byte length lies outside its min/max bounds")
+		}
 		if !sergen.Representable(s, v) {
 			add("bin", "encoder-accepted-unrepresentable-value", "Encode accepted (%d bytes) a value the documented layout cannot express (a length beyond its prefix width or a uint256 outside [0, 2^256))", len(b))
 		}
@@ -702,6 +708,8 @@ func exercise(st *stats, u *sergen.Universe, si int, s *sergen.Shape, nVals int)
 				st.count("boundary_uint256_cases", 2)
 			case "time":
 				st.count("boundary_time_cases", 2)
+			case "utf8":
+				st.count("boundary_utf8_cases/"+parts[1], 2)
 			}
 		}
 		for _, validation := range []bool{false, true} {
